@@ -23,6 +23,50 @@ CHECKS = {
              "through rank-abstracted traces"),
 }
 
+CHECKS["C20"] = dict(
+    text="TLC checks specs/KMeansStats.tla exhaustively: distances are the exact squared Euclidean distances, labels are nearest "
+         "centroids, cluster weights are member fractions and variances the biased member variances for every row composition "
+         "and every order of the per-block tasks, the GMM hand-over is exact, and all of it is translation invariant; every "
+         "exported scenario is replayed through transform / predict (batch, single sample, Dask), "
+         "get_variances_and_weights_for_each_cluster (NumPy and chunked Dask, shared and isolated task execution) and the "
+         "k-means-initialised GMM at harness-level offsets 0, 1e4 and 1e8.",
+    ref="DESIGN.md section 5 (C20)",
+    technique="TLA+/TLC exhaustive model checking + replay of every exported scenario at several offsets",
+    note=TRUST + "; ties excluded as the property states; large offsets rest on the TLC-checked translation invariance")
+CHECKS["C17"] = dict(
+    text="TLC checks specs/GmmMachine.tla (the object with its two caches modelled by the value they were computed from; setters, "
+         "M-steps through the setters, copy, pickle, save/load transcribed step by step) for CacheCoherent, VarAboveCurrentFloor "
+         "and FreshEquivalent on every reachable state, i.e. for all call orders; four named deviations must be refuted. One "
+         "implementation test per edge of the exported state graph: the source state is reached by a BFS path of public calls, "
+         "the operation applied, visible parameters compared with the model, and likelihoods / statistics compared with a "
+         "freshly built machine and with an independent evaluation of the mixture density of the visible parameters.",
+    ref="DESIGN.md section 5 (C17)",
+    technique="TLA+/TLC model checking of the object life cycle + one implementation test per state-graph edge",
+    note=TRUST + "; abstract domain of 2 components x 1..2 features with values from small sets closed under clamping; private "
+         "cache attributes are never read")
+CHECKS["C18"] = dict(
+    text="TLC checks specs/GmmPersist.tla (writer and reader transcribed field by field, legacy reader, UBM check, statistics "
+         "containers) for round-trip of parameters and of every recorded training setting, writability of every valid "
+         "configuration, refusal of MAP files without a UBM, save-load-save stability and legacy equivalence over all "
+         "configurations and all sequences of save/load operations; three deviations transcribing the pre-repair reader/writer "
+         "must be refuted. Each edge is executed with real temporary HDF5 files (by path and by open handle, constructor-from-"
+         "file and load-into-existing of another shape): bit-identical arrays, package equality, identical scores, restored "
+         "configuration and an identical continued fit.",
+    ref="DESIGN.md section 5 (C18)",
+    technique="TLA+/TLC model checking of reader/writer field lists + per-edge replay with real HDF5 files",
+    note=TRUST + "; visible parameters are abstracted to a tag in the model and checked bit for bit on the real objects")
+CHECKS["C02"] = dict(
+    text="TLC checks specs/GmmStats.tla (containers on a heap with a ghost bag of covered samples; E-step per block, + creating "
+         "a new container, += mutating its left operand, refused shape mismatch) for ValueIsSumOfCovers, NNonNegSumsToT, "
+         "SameCoversSameValue, AddDoesNotMutate and MismatchRefused over every set partition of the samples and every order and "
+         "kind of combination; exhaustive and simulated behaviours are replayed on real GMMStats objects (NumPy and Dask input): "
+         "after every operation every container must equal the sum of the single-sample statistics TLC says it covers, and "
+         "single-sample statistics are compared with an independently evaluated posterior.",
+    ref="DESIGN.md section 5 (C02)",
+    technique="TLA+/TLC model checking of the statistics heap + behaviour replay on real GMMStats objects",
+    note=TRUST + "; responsibilities are abstract in the model, their numeric values come from the implementation's "
+         "single-sample E-step, itself compared with an independent evaluation")
+
 PENDING = {}
 
 
